@@ -4,6 +4,7 @@ use crate::engine::sut::{self, Opts};
 use crate::engine::{CaseCtx, Property, Tape, Tier, Verdict};
 use crate::gen::expr::lit_of;
 use crate::model::expr::*;
+use crate::model::isa::*;
 use crate::model::program::*;
 use crate::model::refasm::{self, RefResult};
 use serde_json::json;
@@ -39,6 +40,7 @@ fn spell(t: &mut Tape, ctx: &[String], target: &[String]) -> String {
 
 pub struct ScopeCase {
     pub has_banks: bool,
+    pub via_subrule: bool,
     pub prog: Program,
     pub moved: Option<Program>,
     pub fault: Option<&'static str>,
@@ -235,6 +237,7 @@ pub fn gen_scope(t: &mut Tape) -> ScopeCase {
     // v2: bank directives between declarations and uses. A bank switch declares nothing: the scope of the labels
     // before it stays open (one bank without a size, re-selected at random places: the layout does not change)
     let mut has_banks = false;
+    let mut via_subrule = false;
     if crate::engine::gen_version() >= 2 && t.chance(1, 5) {
         has_banks = true;
         let mut at: Vec<usize> = (0..t.urange(1, 3)).map(|_| t.below(items.len() + 1)).collect();
@@ -252,7 +255,43 @@ pub fn gen_scope(t: &mut Tape) -> ScopeCase {
             *g += 1;
         }
     }
-    let prog = Program { isa: Default::default(), items };
+    // v4: references made from inside a SUB-RULE operand of an instruction whose enclosing rule has an earlier parameter
+    // spelled like one of the program's global symbols: `rq {ga: u8}, {src: opq} => src` used as `rq 0xa5, ga`. The operand
+    // is the user's text: it names the global symbol, never the rule's parameter.
+    let mut isa: Isa = Default::default();
+    if crate::engine::gen_version() >= 4 && t.chance(1, 3) {
+        let globals: Vec<String> = declared.iter().filter(|d| d.len() == 1).map(|d| d[0].clone()).collect();
+        let pname = if globals.is_empty() { "ga".to_string() } else { t.pick(&globals).clone() };
+        isa.subrules.push(SubRule {
+            name: "opq".into(),
+            alts: vec![SubAlt { op: POp::Param { name: "v".into(), ty: PType::U(32) }, prod: E::Var("v".into()), size: 32 }],
+        });
+        isa.blocks.push(RuleBlock {
+            name: None,
+            rules: vec![Rule {
+                mnemonic: "rq".into(),
+                ops: vec![
+                    PatOp { wrap: Wrap::None, op: POp::Param { name: pname, ty: PType::U(8) } },
+                    PatOp { wrap: Wrap::None, op: POp::Param { name: "src".into(), ty: PType::Sub(0) } },
+                ],
+                prod: E::Var("src".into()),
+                size: 32,
+            }],
+        });
+        for it in items.iter_mut() {
+            if let Item::Data { width: Some(32), elems } = it {
+                if elems.len() == 1 && matches!(elems[0], E::Var(_)) && t.chance(2, 3) {
+                    let e = elems[0].clone();
+                    *it = Item::Instr(Instr {
+                        mnemonic: "rq".into(),
+                        ops: vec![InsOp { wrap: Wrap::None, op: IOp::Expr(lit_of(0xa5)) }, InsOp { wrap: Wrap::None, op: IOp::Expr(e) }],
+                    });
+                    via_subrule = true;
+                }
+            }
+        }
+    }
+    let prog = Program { isa: isa.clone(), items };
     // metamorphic variant: move the global address-free constants (k*) to the end or the start.
     // They reset the scope where they stand, so only those standing right before a global declaration
     // (or at either end) may move without changing what other references mean.
@@ -285,9 +324,9 @@ pub fn gen_scope(t: &mut Tape) -> ScopeCase {
                 }
             }
         }
-        moved = Some(Program { isa: Default::default(), items });
+        moved = Some(Program { isa: isa.clone(), items });
     }
-    ScopeCase { prog, moved, fault, reused_names: reused, has_banks }
+    ScopeCase { prog, moved, fault, reused_names: reused, has_banks, via_subrule }
 }
 
 /// C15/C16 border: the same program with runs of items that declare no GLOBAL symbol wrapped into selected
@@ -296,7 +335,7 @@ pub fn gen_scope(t: &mut Tape) -> ScopeCase {
 /// Arms never contain a global declaration, and an arm with a declaration extends to the next global one
 /// (the shapes of the listed C16 finding arm-global-then-outside-local).
 pub fn wrap_in_ifs(t: &mut Tape, prog: &Program) -> Option<String> {
-    let mut out = String::new();
+    let mut out = isa_text(&prog.isa);
     let mut i = 0;
     let mut wrapped = 0;
     let is_global = |it: &Item| matches!(it, Item::Label { dots: 0, .. } | Item::Const { dots: 0, .. });
@@ -397,6 +436,9 @@ impl Property for C15 {
         }
         if let Some(f) = case.fault {
             ctx.label(format!("fault:{}", f));
+        }
+        if case.via_subrule {
+            ctx.label("reference-inside-sub-rule-operand");
         }
         let nrefs = case.prog.items.iter().filter(|i| matches!(i, Item::Data { .. })).count();
         ctx.nontrivial = case.reused_names && nrefs >= 3;
